@@ -70,8 +70,9 @@ def opTess (args : List String) : String :=
       let t := t0.norm
       let brute := rest.contains "brute"
       let verts := rest.contains "verts"
+      let m2 := rest.contains "m2"
       let cells := (List.range t.gens.size).filterMap fun i =>
-        if mask.getD i false then some (Oracle.cellStr t (Oracle.buildCell t i brute) verts) else none
+        if mask.getD i false then some (Oracle.cellStr t (Oracle.buildCell t i brute) verts m2) else none
       s!"NC {cells.length} " ++ " ".intercalate cells ++ s!" T {ratStr (Oracle.boxVolume t)}"
 
 /-- `PI k {C idx np {right shifted valid hastet}}` -/
@@ -167,6 +168,7 @@ def handle (line : String) : String :=
       | "insphere" => opInsphere args
       | "tess" => opTess args
       | "cells" => opTess args
+      | "tets" => opTess args
       | "routes" => opRoutes args
       | "iloc" => opIloc args
       | "geom" => opGeom args
